@@ -3,15 +3,16 @@
   ops thread a table of model conversations).
 -/
 import Otr.DriverPure
+import Otr.DriverConv
 namespace Otr.Driver
-
-structure DState where
-  dummy : Nat := 0
 
 def step (st : DState) (line : String) : DState × String :=
   match pureOp line with
   | some r => (st, r)
-  | none => (st, "bad-op")
+  | none =>
+    match convOp st line with
+    | some r => r
+    | none => (st, "bad-op")
 
 def runAll (lines : List String) (put : String → IO Unit) : IO DState := do
   let mut st : DState := {}
